@@ -43,9 +43,9 @@ type c02Sample struct {
 
 var c02Scenarios = []string{
 	"valid", "valid", "valid",
-	"revoked-credential", "expired-credential", "foreign-subject-credential", "unknown-scope", "unfulfilled-scope",
+	"revoked-credential", "expired-credential", "foreign-subject-credential", "unknown-scope", "unfulfilled-scope", "multi-scope-unfulfilled",
 	"tamper-signature", "tamper-submission-definition", "tamper-submission-path", "tamper-scope", "tamper-claim",
-	"delayed-past-validity", "duplicate-delivery", "other-audience", "other-audience-extended",
+	"delayed-past-validity", "duplicate-delivery", "duplicate-delivery", "other-audience", "other-audience-extended",
 	"openid4vp-valid", "openid4vp-forged-first-presentation", "openid4vp-forged-first-presentation",
 	"openid4vp-wrong-verifier", "openid4vp-wrong-client-id", "openid4vp-missing-verifier",
 	"reissued-valid", "reissued-overlong", "reissued-overlong", "reissued-stale", "reissued-not-yet-valid", "reissued-other-domain", "reissued-reused-nonce",
@@ -137,6 +137,11 @@ func c02Body(s *simkit.Sim, rc *simkit.RunCtx) {
 	case scenario == "unfulfilled-scope":
 		valid = false
 		scope = "test" // needs an employee credential the wallet does not have
+	case scenario == "multi-scope-unfulfilled":
+		// a scope string with two values: one the wallet can fulfil and one it cannot (no policy is configured for the
+		// combination). Whatever the server makes of the string, a token for it must not come out.
+		valid = false
+		scope = []string{"test simple", "simple test", "test  simple", "simple unknown-scope-value simple"}[s.D.Decide("multi-scope", 4)]
 	case scenario == "tamper-signature":
 		valid = false
 		w.HTTP.TamperRequest = func(req *http.Request, body []byte) []byte {
@@ -433,9 +438,25 @@ func c02Body(s *simkit.Sim, rc *simkit.RunCtx) {
 			s.Fail("C02.issue", "refused:valid-before-duplicate", "the valid request before the duplicate was refused: %s", sample.Answer)
 			return
 		}
-		code, body := as.CallForm("POST", "/oauth2/vendorA/token", string(captured))
+		// the same presentation again, as it was or with the parameters that the presentation does not cover changed
+		// (the nonce belongs to the presentation, whoever the sender says it is)
+		again := captured
+		how := "unchanged"
+		switch s.D.Decide("duplicate-variant", 4) {
+		case 1:
+			again = editForm(captured, func(v url.Values) { v.Set("client_id", "https://nodeb.sim/oauth2/another-client") })
+			how = "other client_id"
+		case 2:
+			again = editForm(captured, func(v url.Values) { v.Del("client_id") })
+			how = "without client_id"
+		case 3:
+			again = editForm(captured, func(v url.Values) { v.Set("client_id", v.Get("client_id")+"/"); v.Set("state", "x") })
+			how = "client_id with a trailing slash, extra parameter"
+		}
+		s.Info.Inc("duplicate-delivery:" + how)
+		code, body := as.CallForm("POST", "/oauth2/vendorA/token", string(again))
 		if world.IsTokenResponse(code, body) {
-			s.Fail("C02.issue", "issued:duplicate-delivery", "the same token request (same presentation, same nonce) was honoured a second time")
+			s.Fail("C02.issue", "issued:duplicate-delivery", "the same presentation (same nonce) was honoured a second time (request parameters: %s)", how)
 			return
 		}
 	case "reissued-valid", "reissued-overlong", "reissued-stale", "reissued-not-yet-valid", "reissued-other-domain", "reissued-reused-nonce":
